@@ -18,7 +18,7 @@ from props import _cli
 use_repo()
 
 
-def library_run(fa, fb, ftype, ttype, opts, join_lists, join_dict):
+def library_run(fa, fb, ftype, ttype, opts, join_lists, join_dict, out_format=None):
     """What the library produces for the same files and (resolved) options: (stdout text, exit status)."""
     import graphtage
     from graphtage.printer import Printer
@@ -33,7 +33,7 @@ def library_run(fa, fb, ftype, ttype, opts, join_lists, join_dict):
         a = ff.build_tree(fa, bo)
         b = tf.build_tree(fb, bo)
         diff = a.diff(b)
-        ff.get_default_formatter().print(printer, diff)
+        (graphtage.FILETYPES_BY_TYPENAME[out_format] if out_format else ff).get_default_formatter().print(printer, diff)
         printer.write("\n")
     had = any(any(e.has_non_zero_cost() for e in n.edit_list) for n in diff.dfs())
     return out.getvalue(), 1 if had else 0
@@ -112,10 +112,16 @@ def run():
     chk.sample({"point": jobs[0]["meta"]["point"], "argv": jobs[0]["meta"]["argv"], "events": records[0]["ev"]})
 
     # ---- (a)+(b) library == command line == every equivalent spelling ---------------------------------------
-    n_pairs = 30 if t == "quick" else 300
+    n_pairs = 100 if t == "quick" else 600
     groups, group_meta, cli_jobs, lib_jobs = [], [], [], []
     for gi in range(n_pairs):
         typ = r.choice(["json", "json", "yaml", "json5", "plist", "csv", "xml"])
+        forced_fmt = None
+        if gi % 5 == 0:
+            # every input type that has a loader of its own for the command (build_tree_handling_errors) against every other
+            # output format, systematically
+            typ = ("yaml", "json5", "plist", "json")[(gi // 5) % 4]
+            forced_fmt = ("xml", "plist", "html", "yaml", "json")[(gi // 20) % 5]
         if typ in ("csv", "xml"):
             ca, cb = contents[typ]
         else:
@@ -155,8 +161,15 @@ def run():
         for k in range(max(len(strat), len(lists), len(joins), len(fsel), len(tsel))):
             variants.append(strat[k % len(strat)] + lists[k % len(lists)] + joins[k % len(joins)] +
                             fsel[k % len(fsel)] + tsel[(k + 1) % len(tsel)])
-        key = "pair%d|%s|%s|jl=%s|jd=%s" % (gi, typ, json.dumps(opts, sort_keys=True), jl, jd)
-        lib_jobs.append({"lib": (fa, fb, typ, typ, opts, jl, jd)})
+        # the output format is an option like the others: what the command prints with --format F is what the library prints
+        # through F's default formatter (a cross-format rendering that the LIBRARY cannot do is C13's business: group dropped)
+        out_fmt = r.choice([None, None, "json", "yaml", "xml", "html", "plist", "json5"]) if typ != "csv" else None
+        out_fmt = forced_fmt or out_fmt
+        if out_fmt:
+            fspell = [["--format", out_fmt], ["-f", out_fmt]]
+            variants = [v + fspell[k % 2] for k, v in enumerate(variants)]
+        key = "pair%d|%s|%s|jl=%s|jd=%s|format=%s" % (gi, typ, json.dumps(opts, sort_keys=True), jl, jd, out_fmt)
+        lib_jobs.append({"lib": (fa, fb, typ, typ, opts, jl, jd, out_fmt)})
         for var in variants:
             argv = [fa, fb, "--no-status", "--no-color"] + var
             cli_jobs.append({"argv": argv, "from": fa, "to": fb, "cfg": _cli.base_cfg(), "group": gi, "spelling": var})
@@ -164,7 +177,13 @@ def run():
     _cli._init()
     lib_results = [_lib_job(j) for j in lib_jobs]
     cli_records = _cli.execute(cli_jobs)
+    dropped = 0
     for gi, gm in enumerate(group_meta):
+        if lib_results[gi]["raised"] and "format=None" not in gm["key"]:
+            dropped += 1
+            groups.append([{"k": gm["key"], "v": "-", "raised": False, "how": "dropped: the library cannot render this pair in that format",
+                            "exc": ""}])
+            continue
         obs = [{"k": gm["key"], "v": lib_results[gi]["v"], "raised": lib_results[gi]["raised"], "how": "library",
                 "exc": lib_results[gi]["exc"]}]
         for job, rec in zip(cli_jobs, cli_records):
@@ -172,6 +191,7 @@ def run():
                 obs.append({"k": gm["key"], "v": "%s/%s" % (rec["out_digest"], rec["rc"]), "raised": bool(rec["exc"]),
                             "how": "cli " + " ".join(job["spelling"]), "exc": rec["exc"]})
         groups.append(obs)
+    chk.extra["library_vs_command_groups_dropped_cross_format_not_renderable"] = dropped
     verdicts, st = functional.validate_groups(groups, name="C14-functional")
     chk.add_trace_stats(st, "FunctionalTrace", sum(len(g) for g in groups))
     for gm, obs, v in zip(group_meta, groups, verdicts):
